@@ -280,6 +280,41 @@ func concExec(s core.Spec) core.Exec {
 			collect(a.Exp, nil)
 		}
 	}
+	// the implementation left the script: let everything run to completion, so that the Spec
+	// predicates (frames contiguous, nothing after a close frame, timed-out calls wrote nothing)
+	// judge what the connection really did and a failing schedule becomes the replay
+	if diverged {
+		end := time.Now().Add(500 * time.Millisecond)
+		for time.Now().Before(end) {
+			busy := false
+			for _, th := range ths {
+				if th.parked != nil {
+					close(th.parked.release)
+					th.parked = nil
+				}
+				if th.running {
+					busy = true
+					select {
+					case r := <-th.ret:
+						th.results = append(th.results, [2]int{th.calls[th.next].Fid, r})
+						th.next++
+						th.running = false
+					default:
+					}
+				}
+			}
+			select {
+			case ev := <-g.arrivals:
+				close(ev.release)
+				busy = true
+			default:
+			}
+			if !busy {
+				break
+			}
+			time.Sleep(200 * time.Microsecond)
+		}
+	}
 	// snapshot of what happened under the schedule
 	type snap struct {
 		results [][2]int
